@@ -133,8 +133,10 @@ Print Assumptions client_table_spec.
 
 (* every client method, any arguments: the request it builds, routed through the server model, performs exactly the
    operation of that method with the arguments given, and the client returns what the server answered.
-   Guard (client_guard, explicit): CID / peer ID / metric name are single non-empty path segments, the IPFS path is
-   "/<ipfs|ipns|ipld>/<rest>" (rest non-empty; for PinPath not the single segment "recover"), Pin's CID is not "recover".
+   Guard (client_guard, explicit): CID / peer ID / metric name are single non-empty path segments other than "." / "..", the IPFS
+   path is "/<ipfs|ipns|ipld>/<rest>" (rest non-empty, without empty or dot segments; any characters otherwise: the client escapes
+   the path and the metric name since fix-S27 and the server's unescape is the trusted inverse); Pin's CID is not the string "recover" and Recover's CID not one of
+   "ipfs" / "ipns" / "ipld" (no CID string is: POST /pins/recover is RecoverAll, POST /pins/ipfs/recover a path).
    rt_ok: the server's parsers give back what the client's printers were given (instantiated by C08 below). *)
 Theorem client_faithful c e o f :
   In (cc_name c) known_calls -> cauthorized e = true -> client_guard c -> rt_ok c e o f ->
@@ -142,21 +144,13 @@ Theorem client_faithful c e o f :
 Proof. exact (client_faithful_l c e o f). Qed.
 Print Assumptions client_faithful.
 
-(* the guard cannot be dropped: PinPath("/ipns/recover") builds POST /pins/ipns/recover, which the router gives to the
-   Recover route (listed first) with hash = "ipns": 400, nothing arrives. Reproduced on the real client and API. *)
-Theorem client_faithful_pinpath_recover_refuted :
-  In (cc_name recover_call) known_calls /\ cauthorized recover_env = true /\ rt_ok recover_call recover_env "o" ""
-  /\ (exists p, cc_path recover_call = Some p /\ ipfs_path_ok false p)
-  /\ ~ arrives recover_env (client_sent recover_call recover_env "o" "") (client_run recover_call recover_env).
-Proof. exact pinpath_recover_refuted_l. Qed.
-Print Assumptions client_faithful_pinpath_recover_refuted.
-
-(* the guard excludes exactly the shape the correspondence check recognises as this known finding (tag 1), and the
-   witness above has that shape *)
-Theorem client_guard_excludes_finding :
-  (forall c, client_guard c -> is_recover_shadow c = false) /\ is_recover_shadow recover_call = true.
-Proof. exact (conj guard_excludes_shadow recover_shadow_witness). Qed.
-Print Assumptions client_guard_excludes_finding.
+(* S26 (fixed): PinPath("/ipns/recover") is inside the guard and arrives: POST /pins/ipns/recover reaches PinPath since routes()
+   lists it before Recover (before the fix: hash = "ipns", 400, nothing arrived; the input stays in the corpus) *)
+Theorem client_pinpath_recover_arrives :
+  client_guard recover_call /\ rt_ok recover_call recover_env "o" "" /\
+  client_run recover_call recover_env = mk_cres [("Cluster.PinPath", ["/ipns/recover"; "o"], false)] 0 (Some "{}") false.
+Proof. exact (conj (proj1 pinpath_recover_in_guard) (conj (proj2 pinpath_recover_in_guard) pinpath_recover_run)). Qed.
+Print Assumptions client_pinpath_recover_arrives.
 
 (* composed with C08 query_roundtrip: Pin / PinPath carry the options given (minus metadata entries with the empty key),
    for every oracle of the trusted parsers and every clock; guard wf_q (parsable texts, no ',' in peer strings) *)
@@ -233,6 +227,13 @@ Example client_example_pin :
   client_run c e = mk_cres [("Cluster.Pin", ["QmCid"; "o"; "-1"], false)] 0 (Some "{}") false
   /\ client_sent c e "o" "" = [("Cluster.Pin", ["QmCid"; "o"; "-1"])].
 Proof. vm_compute. split; reflexivity. Qed.
+
+(* S27 (fixed): a metric name that needs URL escaping is inside the guard and arrives as given *)
+Example client_example_escaped :
+  let c := mk_ccall "Metrics" false "" "" None "a%41?b#c" None (Some ["a%41?b#c"]) in
+  let e := mk_cenv None None None None None None None None "" [] "[]" in
+  plain_seg "a%41?b#c" /\ client_run c e = mk_cres [("PeerMonitor.LatestMetrics", ["a%41?b#c"], false)] 0 (Some "[]") false.
+Proof. cbv zeta. split; [repeat split; try discriminate | vm_compute; reflexivity]. Qed.
 
 Example client_example_guards :
   let c := mk_ccall "PinPath" false "QmCid" "QmPeer" (Some "/ipfs/QmCid/a/b/") "ping" (Some "") None in
